@@ -8,6 +8,7 @@ type isStandardClass interface {
 	slip.Class
 
 	mergeSupers() bool
+	unready()
 	slotDefMap() map[string]*SlotDef
 	initArgDefs(name string) []*SlotDef
 	initFormMap() map[string]*SlotDef
